@@ -158,14 +158,19 @@ class simplify_chained_calls(FuncADLNodeTransformer):
         finally:
             self._visit_depth -= 1
 
-    def visit_Lambda(self, node: ast.Lambda):
-        """The arguments of a lambda hide anything of the same name that is being substituted,
-        and they must not capture a name that is free in an expression that is being substituted
-        into the body of the lambda (they are renamed if they would)."""
+    def _names_in_flight(self):
+        "All the names that occur in the expressions that are currently being substituted"
         in_flight = set()
         for frame in self._arg_stack._arg_transformer:
             for value in frame.values():
                 in_flight.update(n.id for n in ast.walk(value) if isinstance(n, ast.Name))
+        return in_flight
+
+    def visit_Lambda(self, node: ast.Lambda):
+        """The arguments of a lambda hide anything of the same name that is being substituted,
+        and they must not capture a name that is free in an expression that is being substituted
+        into the body of the lambda (they are renamed if they would)."""
+        in_flight = self._names_in_flight()
         if any(a.arg in in_flight for a in node.args.args):
             node = make_args_unique(node)
 
@@ -476,9 +481,11 @@ class simplify_chained_calls(FuncADLNodeTransformer):
             arg_asts = [self.visit(a) for a in call_node.args]
             func = call_node.func
             # The body is rewritten (in places more than once) while the parameters stand for
-            # the arguments: a parameter name that occurs in one of the arguments would be
-            # replaced inside the argument as well. Use new parameter names in that case.
+            # the arguments: a parameter name that occurs in one of the arguments - or in an
+            # argument of an enclosing called lambda, which can turn up in the body - would be
+            # replaced inside that argument as well. Use new parameter names in that case.
             names_in_args = {n.id for a in arg_asts for n in ast.walk(a) if isinstance(n, ast.Name)}
+            names_in_args |= self._names_in_flight()
             if any(p.arg in names_in_args for p in func.args.args):
                 func = make_args_unique(func)
             with stack_frame(self._arg_stack):
